@@ -56,6 +56,32 @@ mod sealed {
     fn load_min_segment_size(&self) -> u32 {
       self.min_segment_size.load(Ordering::Acquire)
     }
+
+    #[cfg(all(feature = "memmap", not(target_family = "wasm")))]
+    unsafe fn recover_freelist(&self, base: *mut u8, cap: u32) {
+      let mut current: &AtomicU64 = &self.sentinel;
+      loop {
+        let (current_size, next_offset) = decode_segment_node(current.load(Ordering::Acquire));
+        if next_offset == SENTINEL_SEGMENT_NODE_OFFSET
+          || next_offset % SEGMENT_NODE_SIZE as u32 != 0
+          || next_offset as u64 + SEGMENT_NODE_SIZE as u64 > cap as u64
+        {
+          return;
+        }
+
+        let next = unsafe { &*(base.add(next_offset as usize) as *const AtomicU64) };
+        let (next_size, next_next_offset) = decode_segment_node(next.load(Ordering::Acquire));
+        if next_size == REMOVED_SEGMENT_NODE {
+          // unlink the orphan and look at the same predecessor again
+          current.store(
+            encode_segment_node(current_size, next_next_offset),
+            Ordering::Release,
+          );
+          continue;
+        }
+        current = next;
+      }
+    }
   }
 }
 
